@@ -24,6 +24,7 @@ LEVEL_TEXT = (
     "that order inside the transaction that commit() closes, every exceptional path reaches rollback and every exit "
     "close; (R3) no handler on a load path swallows an exception. Byte-level truncation inside one file is not decided."
     ' Per-file replacement (temp + os.replace of every file) without a protocol over the folder is reported as what it is: it turns a loud failure into a silent hybrid.'
+    " Reader options under which a file cut short parses as valid smaller data (read_csv names=, on_bad_lines other than 'error') are findings of the loud-load rule."
 )
 TECHNIQUE = "ordered effect extraction (write plan) vs commit-protocol detection; CFG with exceptional edges for transaction discipline"
 
